@@ -1207,8 +1207,9 @@ def _process_waiter_timeout_tick(
         (w for w in worker_state.collected_waiters if w.waiter_id == tick.waiter_id),
         None,
     )
-    # Only act if the waiter is still pending (not yet resolved by an event)
-    if waiter is None or waiter.resolved_event is not None:
+    # Only act if the waiter is still pending (not yet resolved by an event and
+    # not already timed out by an earlier timer for the same waiter id)
+    if waiter is None or waiter.resolved_event is not None or waiter.timed_out:
         return state, commands
     waiter.timed_out = True
     subcommands = _add_or_enqueue_event(
